@@ -539,8 +539,10 @@ where
         let mom_0 = Tensor::<B, 1>::from_data(mom_0_data.as_slice(), &B::Device::default());
         if T::abs(self.epsilon + T::one()) <= T::epsilon() {
             self.epsilon = find_reasonable_epsilon(self.position.clone(), mom_0, &self.target);
+            // The shrinkage point is ln(10 * eps0); it is fixed once and not recomputed from the
+            // adapted step size when the chain is run again.
+            self.mu = T::ln(T::from(10).unwrap() * self.epsilon);
         }
-        self.mu = T::ln(T::from(10).unwrap() * self.epsilon);
         (dim, sample)
     }
 
